@@ -22,7 +22,7 @@ RULE = ("Systematic part: the whole (class, year, month) domain - 8 built-in cla
         "its expiry. Every case is non-trivial (a distinct part of the "
         "domain).")
 ASSUMPTIONS = ["the oracle is the property's own wording of the exchange rules; exchange holidays are not modelled by the property"]
-REQUIRED_CATS = ["float-arguments-refused-then-retried", "explicit-contracts:list", "explicit-contracts:ndarray", "explicit-contracts:series-permuted-index",
+REQUIRED_CATS = ["span-ends-on-a-period-end", "float-arguments-refused-then-retried", "explicit-contracts:list", "explicit-contracts:ndarray", "explicit-contracts:series-permuted-index",
                  "explicit-contracts:series-filtered"]
 REQUIRED = ["C19:survives-copy", "C19:expiry-rule", "C19:cutoff-before-expiry", "C19:symbol", "C19:chain-ordered", "C19:chain-unique-symbols",
             "C19:chain-events"]
@@ -219,6 +219,12 @@ def case(ctx, i, tier):
     if ey > 2099:
         ey, em = 2099, 12
     start, end = "%d-%02d" % (sy, sm), "%d-%02d" % (ey, em)
+    if rng.random() < 0.4:
+        # spans given to the day, the end falling exactly on a month / quarter end (the way a calendar year is written)
+        import calendar as _cal
+        start = "%d-%02d-%02d" % (sy, sm, rng.choice([1, 15]))
+        end = "%d-%02d-%02d" % (ey, em, _cal.monthrange(ey, em)[1])
+        ctx.cat("span-ends-on-a-period-end")
     try:
         ch = check_chain(ctx, cls, start, end, month=rng.choice([0, 0, 1, 2]))
     except IndexError:
